@@ -8,6 +8,7 @@ mod model;
 mod msg;
 mod node;
 mod ops;
+mod pipe;
 mod rng;
 mod runner;
 mod scen;
